@@ -14,7 +14,8 @@ x host-key algorithm: K/H/session_id equal on both peers; H equals hashlib over 
 the packets the MITM saw; the signature the client received verifies under the host key it was shown and that key is
 what get_remote_server_key() returns; N rekeys keep the session id while K/H change; altering any single field of
 the server's reply (or the client's value, or the gex group), or swapping the host key, makes the client abort
-before NEWKEYS.
+before NEWKEYS — in the first exchange (plaintext MITM) and in a re-exchange with an unchanged host key (reply altered
+at the server before encryption; also the first exchange's signature replayed).
 """
 import hashlib
 import struct
@@ -401,6 +402,74 @@ def e2e_mitm(ctx, kex, kind, algo, field, rng):
         e.close()
 
 
+def e2e_rekey_tamper(ctx, kex, kind, algo, field, rng):
+    """the same alterations on a RE-exchange (same host key as before): an honest first exchange, then the server's
+    KEX reply of the second exchange is altered before it is encrypted — the client must abort that exchange too."""
+    import threading
+    from paramiko.message import Message
+    from pv.core import InfraError
+
+    key = L.host_key(kind)
+    fam = "gex" if kex.startswith("gex") else "grp" if kex.startswith("group") else "ec"
+    reply_t = 33 if fam == "gex" else 31
+    kinds = "sms" if fam in ("grp", "gex") else "sss"
+    e = L.E2E(kex, key, key_algo=algo)
+    case = {"kex": kex, "hostkey": kind, "algo": algo, "altered": field, "exchange": 2}
+    try:
+        err = e.handshake(timeout=60)
+        if err is not None or not L_wait_logs(e, 1):
+            ctx.fail("honest-handshake-failed:%s:%s" % (kex, algo), case, repr(err))
+            return
+        hit = []
+        orig_send = e.ts._send_message
+
+        def send(m):
+            payload = m.asbytes()
+            if payload[0] == reply_t and not hit:
+                f = L.split_fields(payload, kinds)
+                if field == "signature":
+                    b = bytearray(f[2])
+                    b[-1 - rng.randrange(8)] ^= 1 << rng.randrange(8)
+                    f[2] = bytes(b)
+                elif field == "value":
+                    f[1] = (f[1] + 1 if f[1] > 2 else f[1] + 2) if kinds[1] == "m" else fresh_point(kex, f[1])
+                else:  # the signature of the FIRST exchange replayed
+                    f[2] = first_sig[0]
+                hit.append(1)
+                m = Message(L.rebuild(reply_t, *zip(kinds, f)))
+            orig_send(m)
+
+        first_sig = [e2e_values(e, kex)[4]]
+        e.ts._send_message = send
+        out = {}
+
+        def go():
+            try:
+                e.tc.renegotiate_keys()
+                out["res"] = None
+            except Exception as ex:
+                out["res"] = ex
+
+        th = threading.Thread(target=go, daemon=True)
+        th.start()
+        th.join(90)
+        if th.is_alive():
+            raise InfraError("C06: renegotiate_keys did not return within 90 s")
+        ctx.case(("e2e-rekey-tamper", kex, algo, field), True)
+        ctx.dist("e2e-rekey-tamper:%s:%s" % (fam, field))
+        if not hit:
+            ctx.disagree("rekey-tamper-did-not-see-reply", case, "edited", "not seen")
+            return
+        with e.cv:
+            completed = e.done["c"] >= 2
+        if out["res"] is None or completed:
+            ctx.fail("altered-rekey-accepted:%s:%s" % (fam, field), case,
+                     "client finished the re-exchange (error=%r, NEWKEYS processed=%s) although the server's reply was altered"
+                     % (out["res"], completed))
+    finally:
+        e.close()
+
+
 def fresh_point(kex, old):
     from cryptography.hazmat.primitives.asymmetric import ec, x25519
     from cryptography.hazmat.primitives import serialization
@@ -443,6 +512,19 @@ def end_to_end(ctx):
                     + (rng.choice(fields),))
     for kex, kind, algo, f in plan:
         e2e_mitm(ctx, kex, kind, algo, f, rng)
+    # the same on a re-exchange (host key unchanged)
+    rfields = ["signature", "value", "replayed-signature"]
+    if ctx.thorough:
+        rplan = [(k, kind, algo, f) for k in ALL_ENGINES for kind, algo in [KEY_ALGOS[2], KEY_ALGOS[3], KEY_ALGOS[6]]
+                 for f in rfields]
+    else:
+        rplan = []
+        for j, k in enumerate(["group14-256", "gex256", "nistp256", "c25519"]):
+            for i, f in enumerate(rfields):
+                kind, algo = [KEY_ALGOS[2], KEY_ALGOS[3], KEY_ALGOS[6], KEY_ALGOS[0]][(i + j) % 4]
+                rplan.append((k, kind, algo, f))
+    for kex, kind, algo, f in rplan:
+        e2e_rekey_tamper(ctx, kex, kind, algo, f, rng)
 
 
 def run(ctx):
@@ -451,7 +533,8 @@ def run(ctx):
                 "bit moduli), each also with the host key / value / signature of the reply altered; malformed and "
                 "out-of-order packets; _set_K_H sequences of length 0-6 with and without a preset id. end to end: "
                 "every kex with a host-key algorithm (thorough: all 10 x 7), 1-5 rekeys initiated by either side, and "
-                "single-field MITM edits (host key flipped / swapped, f or Q_S, signature, client value, gex p, gex g). "
+                "single-field MITM edits (host key flipped / swapped, f or Q_S, signature, client value, gex p, gex g), "
+                "the same edits (signature, value, replayed first signature) on a RE-exchange with the same host key. "
                 "distinct = distinct (engine, role, packets) / (kex, algorithm, edit); non-trivial = a complete "
                 "exchange or an altered one")
     ctx.trust("cryptography (RSA/ECDSA/ECDH/X25519), nacl (Ed25519), hashlib",
@@ -482,7 +565,8 @@ META = {
               "ECDH, X25519) an undisturbed exchange makes the server's INIT handler and the client's REPLY handler "
               "hash byte-identical input (the RFC 4253/4419/5656 input), call _set_K_H with the same K and H, and the "
               "client verify exactly the signature made over that H under the key it was shown, activating iff it "
-              "verifies; completion (NEWKEYS) implies that verification succeeded; session_id = first H after any "
+              "verifies; completion (NEWKEYS) implies that verification succeeded, for EVERY exchange of a connection "
+              "(first and re-exchanges, behind run()'s _expected_packet gate, any packet history); session_id = first H after any "
               "number of exchanges and is never changed by later traces; the hash input is injective in every field; "
               "an altered host key / f / signature makes the client raise before NEWKEYS. Tied to the real engines by "
               "exact comparison of every transport call and every hashed byte string, every engine class, both roles."),
